@@ -11,7 +11,7 @@
      operators are the [w_*] programs below: each names the temporaries the
      code allocates (space.element() -> arbitrary contents; one() -> ones). *)
 From Coq Require Import ZArith List Bool.
-From Verif Require Import Base.Num Base.Vec C01.Syntax Gen.Lincomb C01.Model.
+From Verif Require Import Base.Num Base.Vec C01.Syntax Gen.Lincomb Gen.SpaceOps C01.Model.
 Import ListNotations.
 Local Open Scope num_scope.
 
@@ -50,18 +50,50 @@ with ps_map3s (op : leafop) (sps : spaces) (p1 p2 po : elems) (s : store T) : ou
   | _, _, _, _ => ShapeErr
   end.
 
+(* the same with the REGENERATED component call of ProductSpace._lincomb/_multiply/_divide:
+   [pm] says which of (x parts, y parts, out parts) the component call receives as its
+   first, second and output element *)
+Fixpoint ps_map3p (pm : operand * operand * operand) (op : leafop) (sp : space) (x1 x2 out : elem)
+         (s : store T) : outcome T :=
+  match sp, x1, x2, out with
+  | SLeaf fl, Leaf i1, Leaf i2, Leaf io => op fl i1 i2 io s
+  | SNode sps, Node p1, Node p2, Node po => ps_map3ps pm op sps p1 p2 po s
+  | _, _, _, _ => ShapeErr
+  end
+with ps_map3ps (pm : operand * operand * operand) (op : leafop) (sps : spaces) (p1 p2 po : elems)
+               (s : store T) : outcome T :=
+  match sps, p1, p2, po with
+  | SNil, ENil, ENil, ENil => Ok s
+  | SCons sp sps', ECons x p1', ECons y p2', ECons o po' =>
+      let '(q1, q2, qo) := pm in
+      bind (ps_map3p pm op sp (pick3 q1 x y o) (pick3 q2 x y o) (pick3 qo x y o) s)
+           (ps_map3ps pm op sps' p1' p2' po')
+  | _, _, _, _ => ShapeErr
+  end.
+
+Definition elems3 (c : sc * operand * sc * operand * operand) : operand * operand * operand :=
+  let '(_, p1, _, p2, po) := c in (p1, p2, po).
+
+(* a leaf: DiscretizedSpace._lincomb delegates to its tensor space (regenerated call), which
+   calls _lincomb_impl (regenerated call); a plain tensor space is the second step alone.
+   The translator requires the scalars of the delegation to be (a, b) in this order. *)
 Definition lincomb_leaf (a b : T) : leafop := fun fl i1 i2 io =>
-  lincomb_impl (if fl then (fun u => u) else icast) fl (bdtf io) [flg i1; flg i2; flg io] a i1 b i2 io.
-Definition multiply_leaf : leafop := fun _ i1 i2 io => multiply_impl i1 i2 io.
+  let '(d1, d2, do) := elems3 discr_lincomb_call in
+  let j1 := pick3 d1 i1 i2 io in let j2 := pick3 d2 i1 i2 io in let jo := pick3 do i1 i2 io in
+  tensor_lincomb (if fl then (fun u => u) else icast) fl (bdtf jo) flg a j1 b j2 jo.
+Definition multiply_leaf : leafop := fun _ i1 i2 io =>
+  let '(d1, d2, do) := discr_multiply_call in
+  multiply_impl (pick3 d1 i1 i2 io) (pick3 d2 i1 i2 io) (pick3 do i1 i2 io).
 (* np.divide into an integer array raises (true division yields floats) *)
 Definition divide_leaf : leafop := fun fl i1 i2 io s =>
-  if fl then divide_impl i1 i2 io s else CastErr.
+  let '(d1, d2, do) := discr_divide_call in
+  if fl then divide_impl (pick3 d1 i1 i2 io) (pick3 d2 i1 i2 io) (pick3 do i1 i2 io) s else CastErr.
 
 (* space._lincomb(a, x1, b, x2, out), space._multiply(x1, x2, out), space._divide(x1, x2, out) *)
 Definition ps_lincomb (sp : space) (a : T) (x1 : elem) (b : T) (x2 : elem) (out : elem) :=
-  ps_map3 (lincomb_leaf a b) sp x1 x2 out.
-Definition ps_multiply (sp : space) (x1 x2 out : elem) := ps_map3 multiply_leaf sp x1 x2 out.
-Definition ps_divide (sp : space) (x1 x2 out : elem) := ps_map3 divide_leaf sp x1 x2 out.
+  ps_map3p (elems3 pspace_lincomb_call) (lincomb_leaf a b) sp x1 x2 out.
+Definition ps_multiply (sp : space) (x1 x2 out : elem) := ps_map3p pspace_multiply_call multiply_leaf sp x1 x2 out.
+Definition ps_divide (sp : space) (x1 x2 out : elem) := ps_map3p pspace_divide_call divide_leaf sp x1 x2 out.
 
 (* one() / zero(): np.ones / np.zeros in fresh arrays -- every leaf of the fresh
    element [e] is filled with the constant *)
@@ -77,43 +109,78 @@ Definition seq (m k : store T -> outcome T) : store T -> outcome T := fun s => b
 Definition with_one (tmp : elem) (k : store T -> outcome T) : store T -> outcome T :=
   fun s => k (fill_elem (of_Z 1) tmp s).
 
-(* ---- LinearSpace.lincomb(a, x1[, b, x2], out) ---- *)
-Definition w_lincomb1 sp a x1 out := ps_lincomb sp a x1 (of_Z 0) x1 out.      (* b is None *)
-Definition w_lincomb2 sp a x1 b x2 out := ps_lincomb sp a x1 b x2 out.
+(* ---- LinearSpace.lincomb(a, x1[, b, x2], out), multiply, divide: the REGENERATED calls of
+   self._lincomb / _multiply / _divide (which scalars and elements reach them) ---- *)
+Definition w_lincomb1 sp (a : T) (x1 out : elem) :=
+  let '(pa, p1, pb, p2, po) := space_lincomb1_call in
+  ps_lincomb sp (sval2 a nzero pa) (pick3 p1 x1 x1 out) (sval2 a nzero pb) (pick3 p2 x1 x1 out) (pick3 po x1 x1 out).
+Definition w_lincomb2 sp (a : T) (x1 : elem) (b : T) (x2 out : elem) :=
+  let '(pa, p1, pb, p2, po) := space_lincomb2_call in
+  ps_lincomb sp (sval2 a b pa) (pick3 p1 x1 x2 out) (sval2 a b pb) (pick3 p2 x1 x2 out) (pick3 po x1 x2 out).
+Definition w_multiply sp (x1 x2 out : elem) :=
+  let '(p1, p2, po) := space_multiply_call in
+  ps_multiply sp (pick3 p1 x1 x2 out) (pick3 p2 x1 x2 out) (pick3 po x1 x2 out).
+Definition w_divide sp (x1 x2 out : elem) :=
+  let '(p1, p2, po) := space_divide_call in
+  ps_divide sp (pick3 p1 x1 x2 out) (pick3 p2 x1 x2 out) (pick3 po x1 x2 out).
 
-(* ---- LinearSpaceElement ---- *)
-Definition w_assign sp self other := w_lincomb1 sp (of_Z 1) other self.
-Definition w_copy sp self tmp := w_assign sp tmp self.                      (* result: tmp *)
-Definition w_set_zero sp self := ps_lincomb sp (of_Z 0) self (of_Z 0) self self.
+(* ---- LinearSpaceElement: interpreter of the REGENERATED operator programs ---- *)
+Definition eref_el (r : eref) (self other tmp : elem) : elem :=
+  match r with ESelf => self | EOther => other | ETmp => tmp end.
+Definition sref_val (r : sref) (c : T) : T :=
+  match r with SConst k => of_Z k | SOther => c | SNegOther => - c | SInvOther => of_Z 1 / c end.
+Definition run_call sp (st : wstmt) (self other : elem) (c : T) (tmp : elem) : store T -> outcome T :=
+  let el := fun r => eref_el r self other tmp in
+  match st with
+  | WLin1 a x o => w_lincomb1 sp (sref_val a c) (el x) (el o)
+  | WLin2 a x b y o => w_lincomb2 sp (sref_val a c) (el x) (sref_val b c) (el y) (el o)
+  | WMul x y o => w_multiply sp (el x) (el y) (el o)
+  | WDiv x y o => w_divide sp (el x) (el y) (el o)
+  | WNewTmp | WOneTmp => fun s => Ok s
+  end.
+Fixpoint run_w sp (l : list wstmt) (self other : elem) (c : T) (tmp : elem) : store T -> outcome T :=
+  match l with
+  | [] => fun s => Ok s
+  | WNewTmp :: l' => run_w sp l' self other c tmp          (* arbitrary contents: nothing to do *)
+  | WOneTmp :: l' => with_one tmp (run_w sp l' self other c tmp)
+  | st :: l' =>
+      match l' with
+      | [] => run_call sp st self other c tmp
+      | _ => seq (run_call sp st self other c tmp) (run_w sp l' self other c tmp)
+      end
+  end.
+
+Definition w_assign sp self other := run_w sp prog_assign self other nzero self.
+Definition w_copy sp self tmp := w_assign sp tmp self.   (* copy(): result = element(); result.assign(self) (pinned) *)
+Definition w_set_zero sp self := run_w sp prog_set_zero self self nzero self.
 (* LinearSpace.zero(): tmp = element(); lincomb(0, tmp, 0, tmp, tmp) *)
 Definition w_zero_generic sp tmp := w_set_zero sp tmp.
 
-Definition w_iadd sp self other := ps_lincomb sp (of_Z 1) self (of_Z 1) other self.
-Definition w_add sp self other tmp := ps_lincomb sp (of_Z 1) self (of_Z 1) other tmp.
-Definition w_iadd_scalar sp self c tmp := with_one tmp (ps_lincomb sp (of_Z 1) self c tmp self).
-Definition w_add_scalar sp self c tmp := with_one tmp (ps_lincomb sp (of_Z 1) self c tmp tmp).
+Definition w_iadd sp self other := run_w sp prog_iadd_elem self other nzero self.
+Definition w_add sp self other tmp := run_w sp prog_add_elem self other nzero tmp.
+Definition w_iadd_scalar sp self c tmp := run_w sp prog_iadd_scal self self c tmp.
+Definition w_add_scalar sp self c tmp := run_w sp prog_add_scal self self c tmp.
 
-Definition w_isub sp self other := ps_lincomb sp (of_Z 1) self (of_Z (-1)) other self.
-Definition w_sub sp self other tmp := ps_lincomb sp (of_Z 1) self (of_Z (-1)) other tmp.
-Definition w_isub_scalar sp self c tmp := with_one tmp (ps_lincomb sp (of_Z 1) self (- c) tmp self).
-Definition w_sub_scalar sp self c tmp := with_one tmp (ps_lincomb sp (of_Z 1) self (- c) tmp tmp).
-Definition w_rsub sp self other tmp := ps_lincomb sp (of_Z 1) other (of_Z (-1)) self tmp.
-Definition w_rsub_scalar sp self c tmp :=
-  with_one tmp (seq (w_lincomb1 sp c tmp tmp) (ps_lincomb sp (of_Z 1) tmp (of_Z (-1)) self tmp)).
+Definition w_isub sp self other := run_w sp prog_isub_elem self other nzero self.
+Definition w_sub sp self other tmp := run_w sp prog_sub_elem self other nzero tmp.
+Definition w_isub_scalar sp self c tmp := run_w sp prog_isub_scal self self c tmp.
+Definition w_sub_scalar sp self c tmp := run_w sp prog_sub_scal self self c tmp.
+Definition w_rsub sp self other tmp := run_w sp prog_rsub_elem self other nzero tmp.
+Definition w_rsub_scalar sp self c tmp := run_w sp prog_rsub_scal self self c tmp.
 
-Definition w_imul_scalar sp self c := w_lincomb1 sp c self self.
-Definition w_mul_scalar sp self c tmp := w_lincomb1 sp c self tmp.
-Definition w_imul sp self other := ps_multiply sp other self self.
-Definition w_mul sp self other tmp := ps_multiply sp other self tmp.
+Definition w_imul_scalar sp self c := run_w sp prog_imul_scal self self c self.
+Definition w_mul_scalar sp self c tmp := run_w sp prog_mul_scal self self c tmp.
+Definition w_imul sp self other := run_w sp prog_imul_elem self other nzero self.
+Definition w_mul sp self other tmp := run_w sp prog_mul_elem self other nzero tmp.
 
-Definition w_itruediv_scalar sp self c := w_lincomb1 sp (of_Z 1 / c) self self.
-Definition w_truediv_scalar sp self c tmp := w_lincomb1 sp (of_Z 1 / c) self tmp.
-Definition w_itruediv sp self other := ps_divide sp self other self.
-Definition w_truediv sp self other tmp := ps_divide sp self other tmp.
-Definition w_rtruediv sp self other tmp := ps_divide sp other self tmp.
-Definition w_rtruediv_scalar sp self c tmp :=
-  with_one tmp (seq (w_lincomb1 sp c tmp tmp) (ps_divide sp tmp self tmp)).
+Definition w_itruediv_scalar sp self c := run_w sp prog_itruediv_scal self self c self.
+Definition w_truediv_scalar sp self c tmp := run_w sp prog_truediv_scal self self c tmp.
+Definition w_itruediv sp self other := run_w sp prog_itruediv_elem self other nzero self.
+Definition w_truediv sp self other tmp := run_w sp prog_truediv_elem self other nzero tmp.
+Definition w_rtruediv sp self other tmp := run_w sp prog_rtruediv_elem self other nzero tmp.
+Definition w_rtruediv_scalar sp self c tmp := run_w sp prog_rtruediv_scal self self c tmp.
 
+(* __neg__ is `-1 * self`, __pos__ is `self.copy()` (pinned) *)
 Definition w_neg sp self tmp := w_mul_scalar sp self (of_Z (-1)) tmp.
 Definition w_pos sp self tmp := w_copy sp self tmp.
 
